@@ -9,7 +9,8 @@
 
    The expected values are the operators of PathMetaOps.  Monitor (VERIF-BAD): everything the
    property states - acceptance, and for pointer pairs whose info pointer is the segment of the hop
-   pointer the flags, IncPath, Reverse; for other in-range pairs only CurrINFMatchesCurrHF = FALSE.
+   pointer the flags, IncPath, Reverse; for other in-range pairs CurrINFMatchesCurrHF = FALSE and
+   reverse twice = identity.
    Pointer pairs the property says nothing about are compared with the code-shaped operators and
    reported as VERIF-DRIFT only.  Out-of-range pointers: no panic.                               *)
 EXTENDS PathMetaOps, TLC, Json
